@@ -272,28 +272,59 @@ def rule_ensure_templates(ctx):
             construct={"accepted": sorted(accepted or []), "unreachable": sorted(unreachable_roles)})
 
 
-def rule_graphs(ctx):
-    fx = ctx.facts
+def graph_effects(fx, b):
+    """the graph operations of a function, evaluated symbolically: every add_node / update_edge with the (canonical) loop nest it sits in, the
+    facts that hold when it runs (filters of the iterators included; `survived` facts of earlier exits dropped) and its arguments"""
+    from .. import leaves
     ev = sym.Eval(fx, inline_depth=0)
+    ev.effect_calls = {"Graph::add_node", "Graph::update_edge", "Graph::add_edge", "GraphMap::add_edge", "GraphMap::add_node"}
+    value = ev.function(b)
+    recs = []
+    for conds, loops, eff in ev.out:
+        if eff[0] != "emit" or eff[1] not in ev.effect_calls:
+            continue
+        nest, mp, flt = leaves.loop_nest_filtered(loops)
+        cv = lambda x: leaves.norm(leaves.strip_acc(leaves.replace(x, mp)))
+        tests = []
+        for c, pol in list(conds) + flt:
+            r = leaves.cond_tests(cv(c), pol)
+            if r is False:
+                tests = None
+                break
+            tests += [t for t in r if t[0] != "survived"]
+        if tests is None:
+            continue
+        recs.append({"op": eff[1].split("::")[1], "nest": [cv(n) for n in nest], "tests": tests, "args": [cv(a) for a in eff[2]]})
+    return ev, value, recs
+
+
+def rule_graphs(ctx):
+    from .. import leaves
+    fx = ctx.facts
     t = fx.fn("is_tight", impl_self="syntax_tree::asp::mini_gringo::Program")
-    v = ev.function(t)
-    r = repr(v)
+    ev, v, recs = graph_effects(fx, t)
+    SELFP = ("param", "self")
+    RULES_ = ("fieldof", SELFP, "rules")
+    RULE = ("each", RULES_)
+    PREDS = ("call", "Program::predicates", (SELFP,))
+    HEADP = ("call", "Head::predicate", (("fieldof", RULE, "head"),))
+    HP = ("proj", HEADP, (("Option::Some", "0"),))
+    has_head = ("is", HEADP, "Option::Some")
     ctx.add("GRAPH", "tight:result", v[0] == "op" and v[1] == "Not" and v[2][:2] == ("call", "algo::is_cyclic_directed"), ctx.site(t), "is_tight = not is_cyclic_directed(graph)", construct=v[:2])
-    g = ev.last_env.get("dependency_graph", [("none",)])[-1]
-    mp = ev.last_env.get("mapping", [("none",)])[-1]
-    rg = repr(g)
-    each_rule = "('each', ('place', 'self.rules'))"
-    ctx.add("GRAPH", "tight:nodes", "add_node" in rg and "('each', ('call', 'Program::predicates', (('param', 'self'),)))" in repr(mp), ctx.site(t),
-            "one node per predicate of self.predicates(), keyed by the predicate (symbol, arity)")
-    edge_ok = "update_edge" in rg and "Head::predicate" in rg and "Body::positive_predicates" in rg and each_rule in rg
-    ctx.add("GRAPH", "tight:edges", edge_ok, ctx.site(t), "edges head predicate -> body.positive_predicates() for every rule", construct=g if len(rg) < 1500 else rg[:1500])
-    # direction of the edge: (head, body)
-    ue = [x for x in sym.subterms(g) if isinstance(x, tuple) and x[:1] == ("upd",) and x[2] == "update_edge"]
-    ok = False
-    for x in ue:
-        a, bb = x[3][0], x[3][1]
-        ok = "Head::predicate" in repr(a) and "positive_predicates" in repr(bb) and "positive_predicates" not in repr(a)
-    ctx.add("GRAPH", "tight:edge-direction", ok, ctx.site(t), "edge source is the head predicate, target the positive body predicate")
+    nodes = [r for r in recs if r["op"] == "add_node"]
+    edges = [r for r in recs if r["op"] != "add_node"]
+    ctx.add("GRAPH", "tight:nodes", len(nodes) == 1 and nodes[0]["nest"] == [PREDS] and not nodes[0]["tests"], ctx.site(t),
+            "one node per predicate of self.predicates(), unconditionally: %s" % [(r["nest"], r["tests"]) for r in nodes])
+    BP = ("call", "Body::positive_predicates", (("fieldof", RULE, "body"),))
+    e_ok = len(edges) == 1 and edges[0]["op"] == "update_edge" and edges[0]["nest"] == [RULES_, BP] and edges[0]["tests"] == [has_head]
+    ctx.add("GRAPH", "tight:edges", e_ok, ctx.site(t), "one edge per rule with a head predicate and per element of body.positive_predicates(), under no other condition: %s"
+            % [(sym.pretty(n)[:90] for n in r["nest"]) and (len(r["nest"]), r["tests"]) for r in edges])
+
+    def keyed(a, key):
+        # a node looked up by predicate: map[key] where the map was filled from the predicates together with add_node
+        return isinstance(a, tuple) and a[:1] == ("index",) and a[2] == key and "add_node" in repr(a[1]) and repr(PREDS) in repr(a[1])
+    ok = len(edges) == 1 and len(edges[0]["args"]) >= 3 and keyed(edges[0]["args"][1], HP) and keyed(edges[0]["args"][2], ("each", BP)) and edges[0]["args"][1][1] == edges[0]["args"][2][1]
+    ctx.add("GRAPH", "tight:edge-direction", ok, ctx.site(t), "edge source is the node of the head predicate, target the node of the positive body predicate (same predicate -> node map)")
     pp = fx.fn("AtomicFormula::positive_predicates")
     rows = [(k, flow.callees_in(flow.summ(a["body"]))) for m in hq.nodes(pp["body"], "Match") for k, _, a in hq.match_table(m)]
     ref = [("AtomicFormula::Literal(Literal{sign: Sign::NoSign})", True)]
@@ -306,31 +337,43 @@ def rule_graphs(ctx):
             "Body::positive_predicates collects over every body formula")
     # private recursion
     p = fx.fn("has_private_recursion", impl_self="syntax_tree::asp::mini_gringo::Program")
-    v = ev.function(p)
+    ev, v, recs = graph_effects(fx, p)
+    PRIV = ("param", "private_predicates")
     ok = v[0] == "returns"
-    early = v[1][0] if ok else None
+    HEAD = ("fieldof", RULE, "head")
+    want_choice = {("is", HEAD, "Head::Choice"), ("cond", ("call", "IndexSet::contains", (PRIV, ("call", "Atom::predicate", (("proj", HEAD, (("Head::Choice", "0"),)),)))), True)}
     choice_ok = False
+    early = v[1][0] if ok else None
     if early:
         conds, val = early
-        choice_ok = val == ("lit", True) and any("Head::Choice" in repr(c) for c in conds) and any("IndexSet::contains" in repr(c) and "private_predicates" in repr(c) and pol for c, pol in conds)
-    ctx.add("GRAPH", "private:choice", choice_ok, ctx.site(p), "a choice rule whose head predicate is private refuses the program", construct=early)
+        if val == ("lit", True):
+            got = set()
+            for c, pol in conds:
+                c = leaves.norm(c)
+                if isinstance(c, tuple) and c[:2] == ("call", "Iterator::any") and pol and leaves.norm(c[2][0]) == RULES_:
+                    # exists-form: any(rules, |rule| ..): the paths of the closure body that yield true
+                    body = leaves.norm(leaves._apply(c[2][1], RULE))
+                    for ts, x in leaves.bool_leaves(body):
+                        if x == ("lit", True):
+                            got |= set(ts)
+                else:
+                    r = leaves.cond_tests(c, pol)
+                    got |= set(r or [("dead",)])
+            choice_ok = got == want_choice
+            choice_detail = sorted(map(str, got ^ want_choice))
+    ctx.add("GRAPH", "private:choice", choice_ok, ctx.site(p), "a choice rule whose head predicate is private refuses the program (and nothing else does)", construct=early if choice_ok else locals().get("choice_detail"))
     final = v[1][-1][1] if ok else v
     ctx.add("GRAPH", "private:result", final[:2] == ("call", "algo::is_cyclic_directed"), ctx.site(p), "otherwise the result is is_cyclic_directed(graph)")
-    g = ev.last_env.get("dependency_graph", [("none",)])[-1]
-    rg = repr(g)
-    ue = [x for x in sym.subterms(g) if isinstance(x, tuple) and x[:1] == ("upd",) and x[2] == "update_edge"]
-    ok = bool(ue) and "Body::predicates" in rg and "positive_predicates" not in rg
-    ctx.add("GRAPH", "private:edges-all-signs", ok, ctx.site(p), "edges use body.predicates() (every sign), not only positive occurrences")
-    # both endpoints restricted to private predicates: the update_edge sits under two contains(private) conditions
-    body = p["body"]
-    cond_of = {id(n): c for n, c in flow.walk_cond(body)}
-    ues = hq.calls(body, method="update_edge")
-    ok = False
-    if len(ues) == 1:
-        cs = [k for k, pol in cond_of.get(id(ues[0]), ()) if pol and "private_predicates.contains" in k]
-        ok = len(cs) == 2 and any("head_predicate" in k for k in cs) and any("body_predicate" in k for k in cs)
-        detail = cs
-    ctx.add("GRAPH", "private:edges-restricted", ok, ctx.site(p), "an edge is added only if head and body predicate are both private: %s" % (detail if ues else None))
+    nodes = [r for r in recs if r["op"] == "add_node"]
+    edges = [r for r in recs if r["op"] != "add_node"]
+    BA = ("call", "Body::predicates", (("fieldof", RULE, "body"),))
+    priv = lambda x: ("cond", ("call", "IndexSet::contains", (PRIV, x)), True)
+    ctx.add("GRAPH", "private:nodes", len(nodes) == 1 and nodes[0]["nest"] == [PREDS] and nodes[0]["tests"] == [priv(("each", PREDS))], ctx.site(p),
+            "one node per private predicate of the program: %s" % [r["tests"] for r in nodes])
+    ok = len(edges) == 1 and edges[0]["nest"][:1] == [RULES_] and len(edges[0]["nest"]) == 2 and "Body::predicates" in repr(edges[0]["nest"][1]) and "positive_predicates" not in repr(edges[0]["nest"])
+    ctx.add("GRAPH", "private:edges-all-signs", ok and edges[0]["nest"] == [RULES_, BA], ctx.site(p), "edges use body.predicates() (every sign), not only positive occurrences: %s" % [sym.pretty(n)[:120] for r in edges for n in r["nest"][1:]])
+    ok = len(edges) == 1 and set(edges[0]["tests"]) == {has_head, priv(HP), priv(("each", BA))} and len(edges[0]["tests"]) == 3
+    ctx.add("GRAPH", "private:edges-restricted", ok, ctx.site(p), "an edge is added exactly when the rule has a head predicate and head and body predicate are both private: %s" % ([r["tests"] for r in edges],))
     # regularity
     rgl = fx.fn("is_regular", impl_self="syntax_tree::asp::mini_gringo::Program")
     v = ev.function(rgl)
@@ -353,7 +396,8 @@ def rule_entry_collectors(ctx):
     fx = ctx.facts
     table = {"placeholders": "UserGuideEntry::PlaceholderDeclaration", "formulas": "UserGuideEntry::AnnotatedFormula",
              "input_predicates": "UserGuideEntry::InputPredicate", "output_predicates": "UserGuideEntry::OutputPredicate"}
-    entry = ("each", ("place", "self.entries"))
+    from .. import leaves as _lv
+    entry = _lv.norm(("each", ("place", "self.entries")))
     for name, variant in table.items():
         b = fx.fn("UserGuide::" + name)
         site = ctx.site(b)
